@@ -40,6 +40,8 @@ def run_case(case):
         if a['kind'] in ('normal', 'laplace'):
             if a['size'] != b['size']:
                 return out.fail('release_size_differs', "release %d at %s draws %d noise values on D and %d on D'" % (a['index'], a['site'], a['size'], b['size']))
+            if 'operand' in a and a.get('noise_values', a['operand'].size) < a['operand'].size:
+                return out.fail('not_a_dp_primitive', 'release %d at %s adds %d independent noise value(s) to %d statistics (exact contrasts reach the output)' % (a['index'], a['site'], a['noise_values'], a['operand'].size))
             if a['scale'] != b['scale']:
                 return out.fail('noise_scale_differs', "release %d at %s uses scale %r on D and %r on D'" % (a['index'], a['site'], a['scale'], b['scale']))
         else:
